@@ -405,14 +405,21 @@ def world_one(case):
         if errs:
           return {"skip": "fixture %s has errors %s" % (name, errs)}
     names = frets = None
-    for name, src in render_world(w):
+    wcase = {"w": w, "reads": reads, "collide": case["collide"], "nonalpha": case["nonalpha"]}
+    for k, (name, src) in enumerate(render_world(w)):
       srcs[name] = src
       try:
         ast, pyi, errs = _analyse_upstream(name, src, d)
       except Exception as e:  # pylint: disable=broad-except
-        return {"upfail": "%s: %s: %s" % (name, type(e).__name__, str(e)[:300]), "w": w, "srcs": srcs}
+        what = "%s: %s: %s" % (name, type(e).__name__, str(e)[:300])
+        if k == 0 and w["fam"] == "gen":     # imports nothing of ours: not a matter of stubs
+          return {"upfail": what, "w": w, "srcs": srcs}
+        # a later upstream module is itself a reader of the earlier modules' stubs
+        return {"crash": what, "w": w, "world": wcase, "srcs": srcs, "pyis": pyis}
       if errs:
-        return {"upfail": "%s: errors %s" % (name, errs), "w": w, "srcs": srcs}
+        # (judged by TLC like the reader's errors: import / pyi errors are violations)
+        return {"case": {"fam": "uperr", "w": w, "errs": {name: errs}}, "world": wcase,
+                "srcs": srcs, "pyis": pyis, "upfail": "%s: errors %s" % (name, errs)}
       names, frets, cls = decl_tables(name, ast)
       classes.update(cls)
       pyis[name] = pyi
@@ -433,7 +440,7 @@ def world_one(case):
         retB, pb = pio.generate_pyi(bsrc, o, load_pytd.create_loader(o))
       except Exception as e:  # pylint: disable=broad-except
         return {"crash": "B under %s: %s: %s" % (cfg, type(e).__name__, str(e)[:300]),
-                "w": w, "srcs": srcs, "bsrc": bsrc, "pyis": pyis}
+                "w": w, "world": wcase, "srcs": srcs, "bsrc": bsrc, "pyis": pyis}
       cs = {c.name: qterm(c.type, "b", ()) for c in retB.ast.constants}
       fs = {}
       for f in retB.ast.functions:
@@ -445,7 +452,7 @@ def world_one(case):
     return {"case": {"fam": w["fam"], "w": w, "reads": reads,
                      "decls": {"names": names, "frets": frets, "classes": classes},
                      "seen": seen, "errs": errs},
-            "srcs": srcs, "pyis": pyis, "bsrc": bsrc, "pyiB": pyiB, "last": last,
+            "world": wcase, "srcs": srcs, "pyis": pyis, "bsrc": bsrc, "pyiB": pyiB, "last": last,
             "collide": case["collide"], "nonalpha": case["nonalpha"]}
   finally:
     shutil.rmtree(d, ignore_errors=True)
@@ -454,7 +461,7 @@ def world_one(case):
 def world_cfg(family, **kw):
   d = dict(Family='"%s"' % family, NUp=2, MinImpI=1, MaxImpI=1, MinImpL=2, MaxImpL=2,
            AliasNames='{"u"}', UsesInner='{"meth"}', UsesLast='{"var", "fn"}',
-           FixClasses='{"Cfg"}', TVarNames='{"K", "T", "V"}', MaxParams=2,
+           FixClasses='{"Cfg"}', TVarNames='{"K", "T", "V"}', MinParams=2, MaxParams=2,
            AttrShapes='{"plain", "list"}', Locs='{"same", "alias"}', Subs="{TRUE, FALSE}")
   d.update(kw)
   return ("INIT Init\nNEXT Next\nCONSTANTS\n" + "".join(" %s = %s\n" % kv for kv in sorted(d.items()))
@@ -464,7 +471,7 @@ def world_cfg(family, **kw):
 WIDE_DAG = dict(NUp=3, MinImpI=1, MaxImpI=2, MinImpL=1, MaxImpL=2, AliasNames='{"u", "w"}',
                 UsesInner='{"var", "fn", "meth"}', UsesLast='{"var", "fn", "meth"}',
                 FixClasses='{"Cfg", "Own"}')
-WIDE_GEN = dict(MaxParams=3, Locs='{"same", "plain", "alias"}')
+WIDE_GEN = dict(MinParams=1, MaxParams=3, Locs='{"same", "plain", "alias"}')
 NSLICES = 16
 
 
@@ -525,17 +532,14 @@ def main():
         jobs.append(("prog", "ProgGen", c01.gen_cfg(ns, dpt),
                      dict(seed=sl * 11 + 100 + j, simulate="num=%d" % num, depth=ns + 3), num))
       jobs.append(("dag", "StubWorld", world_cfg("dag", **WIDE_DAG),
-                   dict(seed=7000 + sl, simulate="num=30", depth=14), 10))
-      if not thorough:
-        jobs.append(("gen", "StubWorld", world_cfg("gen", **WIDE_GEN),
-                     dict(seed=7100 + sl, simulate="num=10", depth=6), 4))
+                   dict(seed=7000 + sl, simulate="num=%d" % (40 if thorough else 12), depth=14), 8))
     if thorough:
       jobs.append(("dag", "StubWorld", world_cfg("dag", MinImpL=1, UsesInner='{"var", "meth"}',
                                                  UsesLast='{"var", "fn", "meth"}'), {}, 900))
       jobs.append(("gen", "StubWorld", world_cfg("gen", **WIDE_GEN), {}, 460))
     else:
       jobs.append(("dag", "StubWorld", world_cfg("dag"), {}, 192))
-      jobs.append(("gen", "StubWorld", world_cfg("gen"), {}, 120))
+      jobs.append(("gen", "StubWorld", world_cfg("gen"), {}, 96))
 
     def gen(job):
       kind, module, cfg, kw, least = job
@@ -574,9 +578,11 @@ def main():
       continue
     if "upfail" in res:
       # an upstream module of a world is not analysed cleanly: nothing to read through its stub
+      # (its import / pyi errors are judged by TLC below: it reads the earlier modules' stubs)
       run.add("worlds_upstream_failed")
-      run.diverge({"note": res["upfail"], "w": res["w"], "srcs": res["srcs"]})
-      continue
+      run.diverge({"note": res["upfail"], "w": res.get("w") or res["world"]["w"], "srcs": res["srcs"]})
+      if "case" not in res:
+        continue
     if "crash" in res:
       run.violation("C06:crash:" + res["crash"][:60], res["crash"], res)
       continue
@@ -596,7 +602,7 @@ def main():
   common.require(bad is None, "TraceC06 invariant cannot fail")
   nslots = sum(len(c["slots"]) for c in cases if c["fam"] == "prog")
   judged = {st["i"]: st["judged"] for st in tlc.parse_cases(r.out, "STAT")}
-  wcases = [(n, c) for n, c in enumerate(cases, 1) if c["fam"] != "prog"]
+  wcases = [(n, c) for n, c in enumerate(cases, 1) if c["fam"] in ("dag", "gen")]
   common.require(all(n in judged for n, _ in wcases), "TraceC06 did not report on every world")
   nreads = sum(len(c["reads"]) for _, c in wcases)
   njudged = sum(judged[n] for n, _ in wcases)
@@ -623,7 +629,7 @@ def main():
     run.put("gen_worlds", ngen)
     run.put("reads_judged_in_alias_collision_worlds", ncol)
     run.put("reads_judged_in_nonalphabetical_generic_worlds", nna)
-    common.require(ndag >= 190 and ngen >= 120, "too few worlds: dag %d gen %d" % (ndag, ngen))
+    common.require(ndag >= 195 and ngen >= 96, "too few worlds: dag %d gen %d" % (ndag, ngen))
     common.require(ncol >= 200, "alias collisions across modules were not exercised (%d reads)" % ncol)
     common.require(nna >= 500, "non-alphabetical generic templates were not exercised (%d reads)" % nna)
     common.require(njudged * 10 >= nreads * 9, "too many reads the upstream declarations do not type: "
@@ -634,7 +640,7 @@ def main():
       break
   for fam in ("dag", "gen"):
     for k in keep:
-      if "case" in k and k["case"]["fam"] == fam and (k["collide"] or k["nonalpha"]):
+      if k.get("case", {}).get("fam") == fam and (k["collide"] or k["nonalpha"]):
         run.sample({"world": world_text(k["case"]["w"]), "modules": k["srcs"], "B": k["bsrc"][:500],
                     "seen": {c: [_t(t) for t in v] for c, v in k["case"]["seen"].items()}})
         break
@@ -645,9 +651,8 @@ def main():
       c = res["case"]
       w = c["w"]
       wt = world_text(w)
-      payload = {"world": {"w": w, "reads": c["reads"], "collide": res["collide"],
-                           "nonalpha": res["nonalpha"]},
-                 "modules": res["srcs"], "stubs": res["pyis"], "bsrc": res["bsrc"], "pyiB": res["pyiB"]}
+      payload = {"world": res["world"], "modules": res["srcs"], "stubs": res["pyis"],
+                 "bsrc": res.get("bsrc", ""), "pyiB": res.get("pyiB", {})}
       for f in rb["fails"]:
         if f[0] == "mach:reads":
           raise common.Machinery("the reads replayed for world %s are not the spec's Derive" % wt)
@@ -658,9 +663,10 @@ def main():
                        "recorded": rb["exp"][f[1] - 1]})
           continue
         if f[0] == "error":
+          who = ("the analysis of upstream module %s (reading the earlier modules' stubs)" % f[2]
+                 if c["fam"] == "uperr" else "B's analysis under %s" % f[2])
           run.violation("C06:%s:error:%s:%s" % (w["fam"], f[1], f[2]),
-                        "world [%s]: B's analysis under %s reports %s" % (wt, f[2], f[1]),
-                        dict(payload, fail=f))
+                        "world [%s]: %s reports %s" % (wt, who, f[1]), dict(payload, fail=f))
           continue
         rd = read_src(res["last"], c["reads"][f[1] - 1])
         if f[0] == "wtype":
